@@ -510,6 +510,7 @@ class Emitter:
                 ens = clause_block('ensures', c.ensures, spec.name, 'post')
                 text = '%s//@@begin %s\nexec const %s: %s\n%s{\n    %s\n}\n//@@end %s' % (pre, spec.name, mm.group(1), mm.group(2), ens, mm.group(3).strip(), spec.name)
                 self.rules.add('R9')
+                c.novac = True
                 self.register_fn(spec.name, c, rel, it.line_of(it.kw))
             if c.attrs:
                 text = '\n'.join(c.attrs) + '\n' + text
@@ -740,7 +741,7 @@ def vacuity_variant(text, functions):
                     bl = bl.replace('//@@end %s' % cur, '//@@end %s__vac' % cur)
                     bl = bl.replace('//@@%s::' % cur, '//@@%s__vac::' % cur).replace('//@@%s/' % cur, '//@@%s__vac/' % cur)
                     clone.append(bl)
-                if done_ens or in_ens:
+                if (done_ens or in_ens) and replaced_fn:
                     # the closing line of the block is `}//@@end X` possibly followed by more; emit the clone after it
                     out.extend(clone)
                 start = cur = None
